@@ -192,6 +192,10 @@ func runCase(c *CaseDesc) []string {
 	return runCaseWith(c, func(r *caseRun) *nject.Collection { return r.buildCollection("c") })
 }
 
+// afterBindHook, when set, is called with the collection after a successful Bind and before the bound functions are
+// used (the harness runs one case at a time)
+var afterBindHook func(*nject.Collection)
+
 func runCaseWith(c *CaseDesc, build func(*caseRun) *nject.Collection) []string {
 	r := &caseRun{c: c}
 	for _, l := range c.HeaderLines() {
@@ -251,6 +255,9 @@ func runCaseWith(c *CaseDesc, build func(*caseRun) *nject.Collection) []string {
 		return r.lines
 	}
 	r.logf("bind ok")
+	if afterBindHook != nil {
+		afterBindHook(coll)
+	}
 	for o, op := range c.Ops {
 		var fn reflect.Value
 		var inC, outC []int
